@@ -99,13 +99,29 @@ static CmpResult compare_script(const Cfg& c, const bytes& script, Violations& V
         // DISCOURAGE_OP_SUCCESS when that flag is set). The debugger has no such pre-scan.
         R.outcome = "OP_SUCCESS";
         bool expect_ok = !(c.flags & ref::F_DISCOURAGE_OP_SUCCESS);
-        std::string e; size_t i = 0;
-        for (; i < ops.size(); i++) { e = sess.step(); if (e != "") break; }
-        bool impl_ok = e == "";
         int first_succ = -1; for (auto& o : ops) if (ref::is_op_success(o.code)) { first_succ = o.code; break; }
-        if (impl_ok != expect_ok || (!expect_ok && e != "DISCOURAGE_OP_SUCCESS")) {
+        auto bad = [&](const std::string& impl_desc) {
             char k[96]; snprintf(k, 96, "tapscript-op-success:0x%02x:%s", first_succ, expect_ok ? "must-succeed" : "must-fail-discouraged");
-            V.add(k, std::string("tapscript containing OP_SUCCESSx is executed with legacy semantics; impl=") + (impl_ok ? "ok" : e) + " script=" + ref::hex(script) + " cfg=" + cfg_str(c), replay_json(c, script));
+            V.add(k, std::string("tapscript containing OP_SUCCESSx must ") + (expect_ok ? "succeed without executing anything" : "fail with DISCOURAGE_OP_SUCCESS before executing anything") + "; impl: " + impl_desc + " script=" + ref::hex(script) + " cfg=" + cfg_str(c), replay_json(c, script));
+        };
+        auto untouched = [&]() { return sess.stack() == c.init && sess.alt().empty() && sess.cond_size() == 0; };
+        if (!expect_ok) {
+            std::string e = sess.step();
+            if (e != "DISCOURAGE_OP_SUCCESS") bad("first step reports " + (e == "" ? std::string("success") : e));
+            else if (!untouched()) bad("state changed by the failing step");
+            return R;
+        }
+        // no operation may have an effect; the verdict is success whatever the stack holds
+        for (size_t i = 0; i < ops.size(); i++) {
+            std::string e = sess.step();
+            if (e != "") { bad("step " + std::to_string(i) + " reports " + e); return R; }
+            if (!untouched()) { bad("step " + std::to_string(i) + " changed the stack, alt stack or conditional state"); return R; }
+        }
+        { std::string e = sess.step(); if (e != "" || !sess.inst.at_end()) { bad("verdict step reports " + (e == "" ? std::string("not done") : e)); return R; } }
+        {   // run-to-completion agrees
+            impl::Session s2; s2.open(script, c.init, c.flags, c.sv, false); std::string ce;
+            try { if (!ContinueScript(*s2.inst.env)) ce = impl::err_name(*s2.inst.env->serror); } catch (const std::exception&) { ce = "UNKNOWN_ERROR"; }
+            if (ce != "" || s2.stack() != c.init) bad("ContinueScript reports " + (ce == "" ? std::string("a changed stack") : ce));
         }
         return R;
     }
